@@ -4,6 +4,7 @@ import SocVerif.Driver.TreeD
 import SocVerif.Driver.ActD
 import SocVerif.Driver.EvD
 import SocVerif.Driver.RegD
+import SocVerif.Driver.SramD
 
 def main (args : List String) : IO UInt32 := do
   match args with
@@ -14,4 +15,5 @@ def main (args : List String) : IO UInt32 := do
   | ["monitor"] => EvD.mainMon; return 0
   | ["evmap"] => EvD.mainMap; return 0
   | ["reg"] => RegD.main; return 0
+  | ["sram"] => SramD.main; return 0
   | _ => IO.eprintln "usage: driver <mux|mmap|...>"; return 2
